@@ -1,5 +1,6 @@
 import BHS.Props.C15
 import BHS.Props.SqlShape
+import BHS.Props.ChainSvc
 open BHS.Props.C15
 #print axioms C15_add_is_exclusive
 #print axioms C15_add_callers
@@ -16,3 +17,5 @@ open BHS.Props.C15
 #print axioms C15_unlocked_counterexample
 #print axioms C15_duplicate_race_counterexample
 #print axioms BHS.Props.SqlShape.add_statements
+#print axioms BHS.Props.ChainSvc.Gen_add_refines
+#print axioms BHS.Props.ChainSvc.C15_seq_generated
